@@ -204,6 +204,19 @@ pub fn spline(tr: &mut Trace, rng: &mut Rng, thorough: bool) {
 /// periodic data sets (first row == last row), queries many periods away (C07)
 fn periodic_one<T: FEl>(tr: &mut Trace, rng: &mut Rng, n: usize, trailing: &[usize]) {
     let x = mesh_axis::<T>(rng, n);
+    // every other axis is moved whole periods away from the origin (left and right): a wrap computed relative to 0
+    // instead of the first axis value only shows when |x0| exceeds the period
+    let x: Vec<T> = {
+        static COUNTER: std::sync::atomic::AtomicUsize = std::sync::atomic::AtomicUsize::new(0);
+        let c = COUNTER.fetch_add(1, std::sync::atomic::Ordering::Relaxed);
+        let k = [0.0, 7.0, 0.0, -5.0, 3.0, -11.0][c % 6];
+        let span = x[n - 1].as_f64() - x[0].as_f64();
+        let moved: Vec<f64> = x.iter().map(|v| v.as_f64() + k * span).collect();
+        match gen::axis_as::<T>(&moved) {
+            Some(m) if k != 0.0 => m,
+            _ => x,
+        }
+    };
     let mut shape = vec![n];
     shape.extend_from_slice(trailing);
     let mut data = gen::data::<T>(rng, &shape, "uniform");
